@@ -108,6 +108,64 @@ def run(ctx):
                 mm = [(float(unfrac(t)), n) for t, n in ms]
                 if [g[1] for g in gj] != [x[1] for x in mm] or any(abs(a[0] - b[0]) > TOL for a, b in zip(gj, mm)):
                     res.tie_break("engine.time_notes", dict(case, opt=opt), str(gj[:6]), str(mm[:6]))
+    # end to end: the text of a simfile → loads → TimingData(simfile, chart) → time_notes, against the composed Lean models
+    import simfile as _sf
+    e2e_jobs = []
+    for path in gen.corpus_files():
+        with open(path, encoding="utf-8", newline="") as fh:
+            text = fh.read()
+        try:
+            sfo = _sf.loads(text)
+        except Exception:
+            continue
+        if len(text) > 40000 and not ctx.thorough:
+            continue                      # the 100 kB corpus file is left to the thorough tier
+        cis = list(range(len(sfo.charts)))
+        if not ctx.thorough: cis = cis[:3]
+        for ci in cis:
+            e2e_jobs.append((path, text, ci, rng.choice(OPTS)))
+    # generated SSC texts with split timing, warps around pauses and routine / keysounded charts
+    for _ in range(ctx.scale(25, 300)):
+        td = gen.timing(rng, small=True, max_beat=8)
+        if not gen.td_in_domain(td): continue
+        from simfile.timing import Beat as _Beat
+        fmt = lambda l: ",\n".join("%s=%s" % (_Beat(b), v) for b, v in l)
+        sh = {"bpms": fmt(td["bpms"]), "stops": fmt(td["stops"]), "delays": fmt(td["delays"]), "warps": fmt(td["warps"]), "offset": str(td["offset"])}
+        ch = gen.dchart(rng, max_cols=4, max_players=2, max_measures=2, density=.3, big_rows=False, deco=False)
+        e2e_jobs.append(("generated", (sh, ch), 0, rng.choice(OPTS)))
+    rendered = ctx.lean.eval_sharded([{"op": "spec.render", "chart": j[1][1]} for j in e2e_jobs if j[0] == "generated"])
+    ri = 0; ereqs = []; emeta = []
+    for path, payload, ci, opt in e2e_jobs:
+        if path == "generated":
+            sh, _ = payload; notes_text = rendered[ri]; ri += 1
+            chart_timing = rng.random() < .5
+            head = "#VERSION:0.83;\n#TITLE:g;\n#OFFSET:%s;\n#BPMS:%s;\n#STOPS:%s;\n#DELAYS:%s;\n#WARPS:%s;\n" % (
+                sh["offset"], sh["bpms"], sh["stops"], sh["delays"], sh["warps"])
+            chart = "#NOTEDATA:;\n#STEPSTYPE:dance-single;\n" + ("#BPMS:0.000=150.000;\n#OFFSET:0.250;\n" if chart_timing else "") + "#NOTES:\n" + notes_text + ";\n"
+            text = head + chart
+        else:
+            text = payload
+        try:
+            sfo = _sf.loads(text)
+            c = sfo.charts[ci]
+            from simfile.timing import TimingData
+            got = [(float(t.time), gen.jnote(t.note)) for t in time_notes(NoteData(c), TimingData(sfo, c), UnhittableNotes[opt])]
+        except Exception as ex:
+            got = core.exc_name(ex)
+        ereqs.append({"op": "e2e.time_notes", "text": text, "chart": ci, "opt": opt}); emeta.append((path, ci, opt, got, text))
+    eresp = ctx.lean.eval_sharded(ereqs, shards=16)
+    for (path, ci, opt, got, text), m in zip(emeta, eresp):
+        res.count("e2e_text_to_timed_notes")
+        case = {"e2e": path, "chart": ci, "opt": opt, "text": text if len(text) < 1500 else text[:600] + "…"}
+        if isinstance(got, str):
+            if "ok" in m:
+                res.tie_break("e2e.time_notes (impl raised, composed model did not)", case, got, "ok")
+            continue
+        if "ok" not in m:
+            res.tie_break("e2e.time_notes (composed model failed: %s)" % m.get("err"), case, "ok", m); continue
+        mm = [(float(unfrac(t)), n) for t, n in m["ok"]]
+        if [g[1] for g in got] != [x[1] for x in mm] or any(abs(a[0] - b[0]) > TOL for a, b in zip(got, mm)):
+            res.tie_break("e2e.time_notes (text → loads → TimingData → time_notes, composed Lean models)", case, str(got[:4]), str(mm[:4]))
     sresp = ctx.lean.eval_sharded(sreqs, shards=16)
     for (i, small), sp in zip(sidx, sresp):
         if nresp[("small", i)] != sp:
